@@ -200,11 +200,11 @@ def run(ctx):
 
     # ---------------------------------------------------------------- (a) direct round trip
     skip = os.environ.get("C17_SKIP", "")   # development only: letters a, b, c
-    n_rt = 400 if quick else 8000
+    n_rt = 300 if quick else 8000
     if "a" in skip:
         n_rt = 1
     # (a) and (c) run in the background while Coq evaluates (b)
-    n_cor = 150 if quick else 2000
+    n_cor = 100 if quick else 2000
     fut_rt = pool.submit(ctx.jsonl, [hx, "-mode", "rt", "-seed", seed, "-n", str(n_rt)], 800)
     fut_cor = pool.submit(lambda: [] if "c" in skip else ctx.jsonl([hx, "-mode", "corrupt", "-seed", seed, "-n", str(n_cor)], 800))
     rt = fut_rt.result()
@@ -229,7 +229,7 @@ def run(ctx):
         ctx.broken("generator:C17", "%d of %d generated programs do not compile" % (invalid, len(rt)))
 
     # ---------------------------------------------------------------- (b) correspondence
-    n_corr = 30 if quick else 2500
+    n_corr = 18 if quick else 1200
     corr = ctx.jsonl([hx, "-mode", "corr", "-seed", seed, "-n", str(n_corr)] + (["-small"] if quick else []), timeout=800)
     terms, refs, seen = [], [], set()
     cdist = {}
@@ -266,8 +266,13 @@ Definition spec_ok (c : case) : bool :=
 (* the dump is within the ranges the theorems assume *)
 Definition wt_ok (c : case) : bool := wt_program (fst c).
 """
+    if quick and len(terms) > 56:
+        # quick tier: a seed-dependent stride through the boundary pool (the thorough tier evaluates all of it)
+        step = len(terms) // 56 + 1
+        off = ctx.seed % step
+        terms, refs = terms[off::step], refs[off::step]
     ctx.log("(b) evaluating %d distinct (dump, bytes) cases in Coq" % len(terms))
-    bad_model, bad_spec, bad_wt = par_mismatches(ctx, "c17_cases", header, terms, ["model_ok", "spec_ok", "wt_ok"], 3 if quick else 8)
+    bad_model, bad_spec, bad_wt = par_mismatches(ctx, "c17_cases", header, terms, ["model_ok", "spec_ok", "wt_ok"], 4 if quick else 8)
     drift = []
     for i in bad_spec:
         c = refs[i]
@@ -310,8 +315,8 @@ Definition wt_ok (c : case) : bool := wt_program (fst c).
             dcases.append("(%s, %s)" % (hexlist(c["hex"]), cb(c["ok"])))
             drefs.append(c)
     ctx.log("(c) %d corrupted files: %s" % (csum.get("cases", 0), csum.get("outcomes")))
-    if quick and len(dcases) > 150:
-        step = len(dcases) // 150 + 1
+    if quick and len(dcases) > 72:
+        step = len(dcases) // 72 + 1
         off = ctx.seed % step
         dcases, drefs = dcases[off::step], drefs[off::step]
     # the decoder model reproduces accept / reject on the small corrupted files
@@ -319,7 +324,7 @@ Definition wt_ok (c : case) : bool := wt_program (fst c).
 Definition dec_ok (c : bytes * bool) : bool :=
   match decode_program (fst c) with DError _ => negb (snd c) | _ => snd c end.
 """
-    bad_dec = coq_mismatches(ctx, "c17_corrupt", dheader, dcases, "dec_ok", shard=2000, timeout=600) if dcases else []
+    bad_dec = par_mismatches(ctx, "c17_corrupt", dheader, dcases, ["dec_ok"], 4 if quick else 8)[0] if dcases else []
     if bad_dec:
         c = drefs[bad_dec[0]]
         ctx.broken("correspondence:C17.Model.decoder", "DecodeProgram and the decoder model disagree on accept/reject for %d of %d small corrupted files, e.g. class %s file %s: DecodeProgram %s"
